@@ -56,8 +56,11 @@ def naming_space(tier):
     from mc.vlog.lexer import RESERVED_2005
     for word in sorted(RESERVED_2005):
         out.append(('resv', word))
+    # ... and as the name of an in/out port (a pad cell whose bidirectional pin carries the word)
+    for word in sorted(RESERVED_2005):
+        out.append(('resvio', word))
     # clock drivers built with / without their optional clock wire, on a sub-block and on the system itself
-    for v in ('sub_wire', 'sub_nowire', 'top_nowire', 'sub_nowire_gated', 'two_subs_nowire'):
+    for v in ('sub_wire', 'sub_wire_reg', 'sub_nowire', 'top_nowire', 'sub_nowire_gated', 'two_subs_nowire'):
         out.append(('clkdrv', v))
     # structural blocks whose ports are created from an Interface (forward signals and a back channel)
     for v in ('named', 'unnamed'):
@@ -116,6 +119,14 @@ def build_naming(g):
             ck = hw.wire('clk25')
             py4hw.Buf(hw, 'ckbuf', x, ck)
             W.clockDriver = py4hw.ClockDriver('clk25', 25E6, wire=ck)
+        elif v == 'sub_wire_reg':
+            # a derived clock: the wire is produced by a register (an instance, not an assign) and read by nothing but the domain
+            ck, nck = hw.wire('clk25'), hw.wire('nclk25')
+            tg = hw.wire('tg')
+            py4hw.Reg(hw, 'tgr', nck, tg)
+            py4hw.Not(hw, 'tgn', tg, nck)
+            py4hw.Reg(hw, 'ckreg', tg, ck)
+            W.clockDriver = py4hw.ClockDriver('clk25', 25E6, wire=ck)
         elif v == 'sub_nowire':
             W.clockDriver = py4hw.ClockDriver('clk25', 25E6)
         elif v == 'sub_nowire_gated':
@@ -139,6 +150,18 @@ def build_naming(g):
         W.addOut('p_out', z)
         py4hw.Reg(W, 'r0', x, z)
         return hw, ['w_x']
+    if g[0] == 'resvio':
+        word = g[1]
+        x, z, oe = hw.wire('x'), hw.wire('z'), hw.wire('oe')
+        bd = hw.bidir_wire('bd', 1)
+        py4hw.Constant(hw, 'koe', 1, oe)
+        W = Logic(hw, 'dut')
+        W.addOut('pin', z)
+        W.addIn('pout', x)
+        W.addIn('poe', oe)
+        W.addInOut(word, bd)
+        py4hw.BidirBuf(W, 'buf', z, x, oe, bd)
+        return hw, ['w_x', 'w_bd']
     if g[0] == 'alias':
         l = g[1]
         x, y, z = hw.wire('x'), hw.wire('y'), hw.wire('z')
@@ -274,7 +297,7 @@ def check_text(text, external, fam, label, res, desc):
         if sum(1 for v in res['violations'] if v['sig'] == sig) < 2:
             res['violations'].append({'sig': sig, 'shard': desc, 'trace': [], 'detail': {'rule': rule, 'message': msg}})
     try:
-        d = V.elaborate(text, external=external)
+        d = V.elaborate(text, external=external, lint_only=True)
     except ParseError as e:
         viol('R1', 'text does not parse: %s' % e)
         return
@@ -439,7 +462,7 @@ def replay(v):
         text = c01.generate(sys_)
     out = {'design': d.get('design'), 'text': HEX.sub('_ID', text)}
     try:
-        dsg = V.elaborate(text, external=ext)
+        dsg = V.elaborate(text, external=ext, lint_only=True)
         out['issues'] = [list(x) for x in dsg.issues]
         out['violates'] = bool(dsg.issues)
     except VlogError as e:
